@@ -15,6 +15,8 @@ THEOREMS = {
         "Dawgs.C05.Props.lookup_order_free",
         "Dawgs.C05.Props.max_fold_order_free",
         "Dawgs.C05.Props.sorted_order_free",
+        "Dawgs.C05.Props.assert_kinds_idempotent",
+        "Dawgs.C05.Props.unchecked_put_registers_twice",
     ],
     "Dawgs.Props.C05Facts": [
         "Dawgs.C05.Facts.table_nonempty",
@@ -24,6 +26,7 @@ THEOREMS = {
         "Dawgs.C05.Facts.caller_query_only_copied",
         "Dawgs.C05.Facts.generic_shape",
         "Dawgs.C05.Facts.kind_mapper_locked",
+        "Dawgs.C05.Facts.kind_mapper_check_then_act",
         "Dawgs.C05.Facts.kind_mapper_single_writer",
     ],
     # the first-match loop of PruneDefinitions over the alias map is justified by C06's invariant
@@ -79,6 +82,8 @@ def finding_key(suite, ops, line, msg):
         return "C05:InferExpressionType:nil-parameter-panic"
     if cls == "params-mutated:nil-slice-to-empty":
         return "C05:MapStringAnyToJSONB:mutates-caller-parameter-value"
+    if cls == "kindmapper-contract":
+        return "C05:InMemoryKindMapper.AssertKinds:kind-registered-twice"
     if cls == "kindmapper-race":
         return "C05:InMemoryKindMapper.Put:unsynchronised-maps"
     if cls == "panic":
@@ -128,13 +133,15 @@ SPEC = {
     "rule": "suite c05 (search): cases = every Cypher text of the repository corpora (with their cypher_params) + generated queries (300 quick / 3000 thorough) + "
             "reflection mutants of each (1 / 6 per query: nil-ed optional, dropped / duplicated / swapped list item, flipped flag) + 27 queries assembled with the "
             "builders of /repo/query (supported and unsupported shapes) + 32 hand-assembled cypher model values with nil optionals + 9 parameter-shape cases + the "
-            "kind-mapper race probe. Battery per case: the SAME AST object and parameter map translated 10x sequentially and 16x concurrently against ONE kind mapper "
+            "kind-mapper race probe + 24 (200) kind-mapper contract cases (16 goroutines translate the same CREATE naming FRESH kinds against one mapper: outputs byte-equal, "
+            "afterwards one id per kind, one kind per id, ids dense; every third case is the single-threaded repeated label (n:K:K)) + 10 fixed and 40 (600) generated "
+            "multi-path shapes (2-3 path variables, each referenced at least twice through nodes()/relationships()/size() in RETURN or only in the tail WHERE). Battery per case: the SAME AST object and parameter map translated 10x sequentially and 16x concurrently against ONE kind mapper "
             "shared by the whole run, each under recover with a 10 s budget; all 26 outcomes (status, error text, SQL, result parameters) byte-compared; ToSexp(AST) and "
             "ToSexp(params) compared before/after. Non-trivial = the full battery of 26 translations ran (the query translates or is rejected with an error). "
             "suite walkc05 (tie): the REAL walk.Generic instantiated on the harness's tree type with scripted visitors (Consume / SetDone / SetError at the k-th callback, "
             "cursor constructor refusing a label) vs the Lean model: all trees <= 4 (5) nodes x every single action at every callback index, + random trees <= 16 nodes x "
             "up to 3 actions; non-trivial = at least three callbacks. distinct = distinct op lines (sha1)",
-    "expected_branches": ["class.ok", "class.err", "kind.mutant", "kind.builder", "kind.hand", "kind.params", "walk.with_consume", "walk.err", "walk.conserr"],
+    "expected_branches": ["class.ok", "class.err", "kind.mutant", "kind.builder", "kind.hand", "kind.params", "kind.kindmapper", "gen.pathshapes", "walk.with_consume", "walk.err", "walk.conserr"],
     "trusted_base": ["tools/extract/gotyped c05 (go/types classification of map ranges and of parameter/query uses)",
                      "harness/c05.go battery (recover, time budget, byte comparison, reflection S-expressions of inputs)",
                      "Go race detector in the thorough tier"],
@@ -155,7 +162,8 @@ MANIFEST = {
             "returns (model tied to the real generic walker on exhaustive small trees and random scripts); writes into a deep copy cannot reach the original (Optimize uses the "
             "caller's query only through cypher.Copy, Translate only through Optimize — extracted facts); every `range` over a map in translate/, optimize/, format/, pgutil and "
             "the supporting packages is map-insert, set-insert, sorted-before-use, lookup-only or a commutative fold (order-free by fold_perm_invariant), except three justified "
-            "loops; NewTranslator copies the caller's parameter map and nothing writes through it. NOT proved: absence of panics and hangs in the 22k-line translator, run-to-run "
+            "loops; NewTranslator copies the caller's parameter map and nothing writes through it; the in-memory kind mapper gives every kind exactly one id under every "
+            "interleaving of AssertKinds / Put (assert_kinds_idempotent over the lock-level LTS; check-then-act in one critical section is an extracted fact). NOT proved: absence of panics and hangs in the 22k-line translator, run-to-run "
             "and concurrent determinism of the whole, deep immutability of parameter values — these are searched: every corpus, generated, mutated, builder-built and "
             "hand-assembled AST is translated 10x sequentially and 16x concurrently against one shared kind mapper with byte comparison and before/after comparison of the inputs.",
     "note": "Five defects found by this check are fixed (known_findings.json, status fixed): F10 nil-parameter panic (shared with C06); panics on two ordinary parsed queries "
